@@ -170,7 +170,8 @@ class Interp(object):
         elif isinstance(st, ast.For):
             it = self.eval(st.iter, env)
             if getattr(self, 'concrete_loops', False) and isinstance(it, (list, tuple)) and len(it) <= 64 and not st.orelse and \
-                    all(isinstance(x, (int, str, bytes, float, type(None))) for x in it):
+                    all(isinstance(x, (int, str, bytes, float, type(None), Sym)) or
+                        (isinstance(x, tuple) and all(isinstance(y, (int, str, bytes, float, type(None), Sym)) for y in x)) for x in it):
                 # the iterable folded to concrete constants: the loop is its unrolling
                 for x in it:
                     self.assign(st.target, x, env)
